@@ -286,11 +286,17 @@ func check(prop string) int {
 		if f := os.Getenv("VERIF_ONLY_RUN"); f != "" && !strings.Contains(r.name, f) { // debugging aid, never set by a registered command
 			continue
 		}
-		b := &kernel.BFS{Property: prop, Engine: "E-A/" + r.name, Cfg: r.cfg, MaxDepth: r.depth, Budget: r.budget, Workers: 16, WorkerArgs: []string{"worker"}}
+		b := &kernel.BFS{Property: prop, Engine: "E-A/" + r.name, Cfg: r.cfg, MaxDepth: r.depth, Budget: r.budget, Workers: 16, WorkerArgs: []string{"worker"}, FlakyOK: true}
 		res := b.Run()
 		last = b
 		if res.HarnessErr != "" {
-			total.HarnessErr = r.name + ": " + res.HarnessErr
+			if total.HarnessErr == "" {
+				total.HarnessErr = r.name + ": " + res.HarnessErr
+			}
+			total.Violations = append(total.Violations, res.Violations...)
+			if strings.HasPrefix(res.HarnessErr, "nondeterministic replay") {
+				continue // nothing is claimed any more; the remaining runs only look for a reproducible violation
+			}
 			break
 		}
 		total.States += res.States
